@@ -36,11 +36,16 @@ type Env struct {
 	Objs   map[types.Object]Val // locals / params
 	Calls  map[string]Val       // by FuncKey of the static callee (argument-insensitive predicate atoms)
 	Prog   *Prog                // set to allow inlining of loop-free repository helpers
+	// ObjFields: per-object field values (distinguishes a.f from b.f); the object of `y` defined by `y := x.(*T)` is x's
+	ObjFields map[types.Object]map[*types.Var]Val
+	// DynType: dynamic type (types.Type.String()) of interface-typed variables, for type switches and assertions
+	DynType map[types.Object]string
 }
 
 // NewEnv creates an empty valuation.
 func NewEnv() *Env {
-	return &Env{Exprs: map[string]Val{}, Fields: map[*types.Var]Val{}, Objs: map[types.Object]Val{}, Calls: map[string]Val{}}
+	return &Env{Exprs: map[string]Val{}, Fields: map[*types.Var]Val{}, Objs: map[types.Object]Val{}, Calls: map[string]Val{},
+		ObjFields: map[types.Object]map[*types.Var]Val{}, DynType: map[types.Object]string{}}
 }
 
 // Eval evaluates e under env; ok=false if an atom is unbound or the expression is outside the formula language.
@@ -78,16 +83,38 @@ func evalDepth(f *Fn, e ast.Expr, env *Env, depth int) (Val, bool) {
 		if obj != nil {
 			defs := DefsOf(f, obj)
 			if len(defs) == 1 {
+				// `v, ok := x.(T)`: the boolean is the dynamic-type test
+				if ta, isTA := Unparen(defs[0]).(*ast.TypeAssertExpr); isTA && ta.Type != nil {
+					if b, isB := obj.Type().Underlying().(*types.Basic); isB && b.Kind() == types.Bool {
+						if xo := ObjOf(f.Pkg, ta.X); xo != nil {
+							if dt, ok := env.DynType[xo]; ok {
+								t := f.Pkg.TypesInfo.TypeOf(ta.Type)
+								return BoolVal(t != nil && t.String() == dt), true
+							}
+						}
+					}
+					return Val{}, false
+				}
 				return evalDepth(f, defs[0], env, depth+1)
 			}
 		}
 		return Val{}, false
 	case *ast.SelectorExpr:
 		if fv := FieldOf(f.Pkg, x); fv != nil {
+			if bo := BaseObject(f, x.X); bo != nil {
+				if m, ok := env.ObjFields[bo]; ok {
+					if v, ok := m[fv]; ok {
+						return v, true
+					}
+				}
+			}
 			if v, ok := env.Fields[fv]; ok {
 				return v, true
 			}
 		}
+		return Val{}, false
+	case *ast.TypeAssertExpr:
+		// only the comma-ok boolean of `_, ok := x.(T)` reaches here through the ident case
 		return Val{}, false
 	case *ast.UnaryExpr:
 		v, ok := evalDepth(f, x.X, env, depth+1)
@@ -312,6 +339,18 @@ func EvalFormula(f *Fn, fm *Formula, env *Env) (bool, bool) {
 			}
 		}
 		return false, true
+	case "typein":
+		xo := ObjOf(f.Pkg, fm.Tag)
+		dt, ok := env.DynType[xo]
+		if xo == nil || !ok {
+			return false, false
+		}
+		for _, te := range fm.Vals {
+			if t := f.Pkg.TypesInfo.TypeOf(te); t != nil && t.String() == dt {
+				return true, true
+			}
+		}
+		return false, true
 	case "not":
 		v, ok := EvalFormula(f, fm.Sub[0], env)
 		return !v, ok
@@ -432,7 +471,42 @@ func (pc *PathConds) walk(f *Fn, list []ast.Stmt, c *Formula) (*Formula, error) 
 				out = fOr(out, rest)
 			}
 			c = out
-		case *ast.ForStmt, *ast.RangeStmt, *ast.SelectStmt, *ast.LabeledStmt, *ast.TypeSwitchStmt:
+		case *ast.TypeSwitchStmt:
+			var x ast.Expr
+			switch a := s.Assign.(type) {
+			case *ast.AssignStmt:
+				x = a.Rhs[0].(*ast.TypeAssertExpr).X
+			case *ast.ExprStmt:
+				x = a.X.(*ast.TypeAssertExpr).X
+			}
+			rest := c
+			out := fFalse
+			var def *ast.CaseClause
+			for _, cs := range s.Body.List {
+				cc := cs.(*ast.CaseClause)
+				if cc.List == nil {
+					def = cc
+					continue
+				}
+				m := &Formula{Op: "typein", Tag: x, Vals: cc.List}
+				fb, err := pc.walk(f, cc.Body, fAnd(rest, m))
+				if err != nil {
+					return nil, err
+				}
+				out = fOr(out, fb)
+				rest = fAnd(rest, fNot(m))
+			}
+			if def != nil {
+				fb, err := pc.walk(f, def.Body, rest)
+				if err != nil {
+					return nil, err
+				}
+				out = fOr(out, fb)
+			} else {
+				out = fOr(out, rest)
+			}
+			c = out
+		case *ast.ForStmt, *ast.RangeStmt, *ast.SelectStmt, *ast.LabeledStmt:
 			return nil, fmt.Errorf("%T at %s is outside the structured loop-free subset", st, f.Pkg.Fset.Position(st.Pos()))
 		case *ast.BranchStmt:
 			return nil, fmt.Errorf("branch statement at %s is outside the subset", f.Pkg.Fset.Position(st.Pos()))
@@ -485,4 +559,29 @@ func StmtHolds(f *Fn, st ast.Stmt, env *Env) (bool, error) {
 		return false, fmt.Errorf("path condition uses an atom outside the table")
 	}
 	return h, nil
+}
+
+// BaseObject resolves the object a field is selected from: an identifier, an identifier defined once by a type
+// assertion `y := x.(T)` / `y, ok := x.(T)` (resolves to x), or an inline assertion `x.(T)`.
+func BaseObject(f *Fn, e ast.Expr) types.Object {
+	e = Unparen(e)
+	switch x := e.(type) {
+	case *ast.TypeAssertExpr:
+		return BaseObject(f, x.X)
+	case *ast.StarExpr:
+		return BaseObject(f, x.X)
+	case *ast.Ident:
+		o := ObjOf(f.Pkg, x)
+		if o == nil {
+			return nil
+		}
+		defs := DefsOf(f, o)
+		if len(defs) == 1 {
+			if ta, ok := Unparen(defs[0]).(*ast.TypeAssertExpr); ok {
+				return BaseObject(f, ta.X)
+			}
+		}
+		return o
+	}
+	return nil
 }
